@@ -103,11 +103,13 @@ fn main() {
         }
         "rec-stages-tri" => stages::rec_stages_tri(geti(&m, "n", 2), geti(&m, "l", 840), geti(&m, "from", 0) as usize, geti(&m, "stride", 1) as usize,
             geti(&m, "matrix", 40) as usize, geti(&m, "rid0", 1) as u64),
+        "replay-sweep" => stages::replay_sweep(gets(&m, "file", "")),
         "replay-pi" => {
+            let (fr, off, ax) = (geti(&m, "frame", 0) as i32, geti(&m, "offset", 0), m.contains_key("only-axis"));
             if m.contains_key("f32") {
-                stages::replay_pi::<f32>(gets(&m, "file", ""))
+                stages::replay_pi::<f32>(gets(&m, "file", ""), fr, off, ax)
             } else {
-                stages::replay_pi::<f64>(gets(&m, "file", ""))
+                stages::replay_pi::<f64>(gets(&m, "file", ""), fr, off, ax)
             }
         }
         "splay-replay" => splay::replay_graph(gets(&m, "graph", "")),
